@@ -19,7 +19,7 @@ from . import codecgen as G
 from . import common
 
 MODULES = ["CoapVerif.Props.C01", "CoapVerif.Findings.C01"]
-GENERATED = ["CodecConsts.lean", "OptionDefs.lean"]
+GENERATED = ["CodecConsts.lean", "OptionDefs.lean", "PoolRetry.lean"]
 PROP = "C01"
 
 
@@ -71,8 +71,12 @@ def ops_for(rng, coder, m, thorough, big):
             if cap >= 0:
                 L.append("enc %s %d %s" % (coder, cap, s))
     n = len(m["opts"])
-    L.append("rt %s %d %s" % (coder, rng.choice([n, n + 1, max(n, 16), 64]), s))
-    if not big or rng.random() < 0.3:
+    L.append("rt %s %d %s" % (coder, rng.choice([n, n + 1, max(n, 16), max(n, 64)]), s))
+    if n > 500:
+        # many options: the pooled retry loop has to pass every capacity step
+        L.append("pool %s fresh 0 %s" % (coder, s))
+        L.append("pool %s recycled 0 %s" % (coder, s))
+    elif not big or rng.random() < 0.3:
         kind, cap = rng.choice([("fresh", 0), ("recycled", 0), ("recycled", 1), ("recycled", 16), ("recycled", 3)])
         L.append("pool %s %s %d %s" % (coder, kind, cap, s))
     return L
